@@ -54,6 +54,12 @@ func gen(g *hx.Gen) {
 		}
 	}
 	rec(0)
+	// signed data of publickey authentication: random field contents incl. empty and binary strings
+	for i := 0; i < g.Count(400, 5000) && g.N == 0; i++ {
+		f := func(max int) string { return hx.Hex(r.Bytes(r.PickInt(0, 0, 1, 3, max, r.Intn(max+1)))) }
+		g.Emit("sdata sid=%s user=%s svc=%s meth=%s algo=%s key=%s", f(32), f(12), f(14), f(9), f(40), f(300))
+		g.Stat("clause.signed-data")
+	}
 	// keyboard-interactive challenge rounds and gssapi-with-mic exchanges (follow-up packets)
 	nx := g.Count(2500, 60000)
 	for i := 0; i < nx && g.N == 0; i++ {
